@@ -60,8 +60,8 @@ DECOY0 = 1000
 NONHEX_TAIL = "0123456789ABCDEFGHJKMNPQRSTUVWXYZghjkmnpqrstuvwxyz"
 
 
-VALID_SHAPES = ["upper64", "lower64", "mixed64", "empty"]
-INVALID_SHAPES = ["odd63", "bad_start", "bad_middle", "bad_end", "ws_padded", "prefix_0x", "odd_bad"]
+VALID_SHAPES = ["upper64", "lower64", "mixed64", "hex32", "hex96", "hex128", "lower128", "hex2", "empty"]
+INVALID_SHAPES = ["odd63", "bad_start", "bad_middle", "bad_end", "ws_padded", "prefix_0x", "odd_bad", "odd31", "odd127", "bad128"]
 
 
 def hex_decode_accepts(value):
@@ -80,6 +80,23 @@ def shaped_value(rng, shape):
         return "".join(c.lower() if rng.random() < 0.5 else c for c in up(64))
     if shape == "empty":
         return ""
+    # key material of other lengths than 256 bit: hex::decode (the gate and compute_signature) accepts any even length
+    if shape == "hex32":
+        return up(32)                           # 128 bit
+    if shape == "hex96":
+        return up(96)                           # 384 bit
+    if shape == "hex128":
+        return up(128)                          # 512 bit
+    if shape == "lower128":
+        return up(128).lower()
+    if shape == "hex2":
+        return up(24)                           # 96 bit (short, still searchable)
+    if shape == "odd31":
+        return up(31)
+    if shape == "odd127":
+        return up(127)
+    if shape == "bad128":
+        return up(100) + "h" + up(27)
     if shape == "odd63":                       # all hex digits, odd length: only hex::decode's OddLength refuses it
         return up(63)
     if shape == "bad_start":
@@ -225,26 +242,38 @@ def segments(hist):
 # ------------------------------------------------------------------------------------------
 # running one history on the real code
 # ------------------------------------------------------------------------------------------
-def run_history(ctx, binary, hist, keys, idx, strace=False, variant=0, predir=False, chown_fails=False):
+def run_history(ctx, binary, hist, keys, idx, strace=False, variant=0, predir=False, chown_fails=False, folder="plain"):
     """run (all segments of) one history; a segment that times out says nothing about the code (a stalled
     namespace set-up under load, ...), so the whole history is started afresh, at most twice more"""
     for attempt in range(3):
-        root, results = _run_history_once(ctx, binary, hist, keys, idx, strace, variant, predir, chown_fails)
+        root, results = _run_history_once(ctx, binary, hist, keys, idx, strace, variant, predir, chown_fails, folder)
         if not any(r.get("timeout") for r in results):
             break
         ctx.notes.append("history %d attempt %d timed out: %s" % (idx, attempt, [r.get("error") for r in results if r.get("timeout")][:1]))
     return root, results
 
 
-def _run_history_once(ctx, binary, hist, keys, idx, strace, variant, predir, chown_fails=False):
+# how the configured key folder relates to the directory that really holds the key files
+FOLDER_SHAPES = ["plain", "symlink", "nested", "relative"]
+
+
+def _run_history_once(ctx, binary, hist, keys, idx, strace, variant, predir, chown_fails=False, folder="plain"):
     root = os.path.join(ctx.scratch, "h%04d" % idx)
     shutil.rmtree(root, ignore_errors=True)
     os.makedirs(os.path.join(root, "bin"))
+    # "symlink": <root>/keys -> <root>/realkeys; "nested": <root>/keys -> <root>/keys.link -> <root>/realkeys (both need
+    # a pre-existing real directory); "relative": the agent is configured with the relative path "keys" and runs in <root>
+    real = os.path.join(root, "realkeys" if folder in ("symlink", "nested") else "keys")
     if predir:
         # the key directory exists already: some owner, some mode (see PREDIR_KINDS)
-        os.makedirs(os.path.join(root, "keys"))
-        os.chmod(os.path.join(root, "keys"), predir["mode"])
-        os.chown(os.path.join(root, "keys"), predir["uid"], predir["gid"])
+        os.makedirs(real)
+        os.chmod(real, predir["mode"])
+        os.chown(real, predir["uid"], predir["gid"])
+    if folder == "symlink":
+        os.symlink(real, os.path.join(root, "keys"))
+    elif folder == "nested":
+        os.symlink(real, os.path.join(root, "keys.link"))
+        os.symlink("keys.link", os.path.join(root, "keys"))
     exe = os.path.join(root, "bin", "c12")
     try:
         os.link(binary, exe)
@@ -253,6 +282,8 @@ def _run_history_once(ctx, binary, hist, keys, idx, strace, variant, predir, cho
     open(os.path.join(root, "console.log"), "w").close()
     env = dict(os.environ)
     env["C12_SCRATCH"] = root
+    if folder == "relative":
+        env["C12_KEYS_DIR"] = "keys"
     if chown_fails:
         # the agent runs without CAP_CHOWN: chown(<key dir owned by uid 1000>, 0, 0) is refused (EPERM)
         env["C12_DROP_CHOWN"] = "1"
@@ -266,7 +297,7 @@ def _run_history_once(ctx, binary, hist, keys, idx, strace, variant, predir, cho
         line = json.dumps({"ops": driver_ops(seg, keys, variant, first_poll)}) + "\n"
         first_poll += sum(1 for op in seg if op[0] == "poll")
         p = None
-        proc = subprocess.Popen(cmd, stdin=subprocess.PIPE, stdout=subprocess.PIPE, stderr=subprocess.PIPE, text=True, env=env,
+        proc = subprocess.Popen(cmd, stdin=subprocess.PIPE, stdout=subprocess.PIPE, stderr=subprocess.PIPE, text=True, env=env, cwd=root,
                                 start_new_session=True)
         try:
             so, se = proc.communicate(line, timeout=int(os.environ.get("C12_TIMEOUT", "120")))
@@ -330,7 +361,7 @@ def classify(rel):
     """file (relative to the scratch tree) -> sink name"""
     parts = rel.split(os.sep)
     top, name = parts[0], parts[-1]
-    if top == "keys":
+    if top in ("keys", "realkeys"):
         if name.endswith(".key") or name.endswith(".tmp") and not name.startswith("status.tag") or name.endswith(".encrypted"):
             return "KeyFile"
         return "ProvisionTag"               # status.tag, status.tag.tmp, provisioned.tag, anything else in the key dir
@@ -354,7 +385,7 @@ def classify(rel):
         return "Stdout"
     if rel in ("console.log", "console.fifo", "console.done"):
         return "SerialConsole"
-    if top == "bin" or rel.startswith("strace."):
+    if top == "bin" or rel.startswith("strace.") or rel == "keys.link":
         return None
     return "Log"                            # an unknown file the run produced: treat as a log (never allowed)
 
@@ -430,7 +461,7 @@ def strace_lines(path):
 def keydir_trace(root):
     """[(event, arg)] restricted to the key directory, in order, over all segments:
     ("mkdir", None) ("chown", (uid, gid)) ("chmod", mode) ("create", basename-class)"""
-    keydir = os.path.join(root, "keys")
+    keydir = os.path.join(root, "keys")      # the path the agent is configured with (possibly a symlink; possibly given as "keys")
     ev = []
     i = 0
     while os.path.exists(os.path.join(root, "strace.%d.txt" % i)):
@@ -444,12 +475,12 @@ def keydir_trace(root):
             paths = re.findall(r'"((?:[^"\\]|\\.)*)"', args)
             if not paths:
                 continue
-            p0 = paths[0]
+            p0 = paths[0] if os.path.isabs(paths[0]) else os.path.join(root, paths[0])   # the driver's cwd is <root>
             if name in ("mkdir", "mkdirat") and os.path.normpath(p0) == keydir:
                 ev.append(("mkdir", None))
             elif name == "rmdir" and os.path.normpath(p0) == keydir:
                 ev.append(("rmdir", None))
-            elif name in ("chown", "lchown", "fchownat") and os.path.normpath(p0) == keydir:
+            elif name in ("chown", "fchownat") and "AT_SYMLINK_NOFOLLOW" not in args and os.path.normpath(p0) == keydir:
                 nums = re.findall(r',\s*(\d+),\s*(\d+)', args)
                 ev.append(("chown", tuple(int(x) for x in nums[-1]) if nums else None))
             elif name in ("chmod", "fchmodat", "fchmodat2") and os.path.normpath(p0) == keydir:
@@ -482,7 +513,7 @@ def writes_outside(root):
             paths = re.findall(r'"((?:[^"\\]|\\.)*)"', args)
             if not paths:
                 continue
-            pth = os.path.normpath(paths[0])
+            pth = os.path.normpath(paths[0] if os.path.isabs(paths[0]) else os.path.join(root, paths[0]))
             if pth.startswith(root) or pth in ("/dev/console", "/dev/null", "/dev/tty") or pth.startswith("/proc/") or pth.startswith("/dev/pts"):
                 continue
             bad.add(pth)
@@ -583,7 +614,7 @@ PREDIR_KINDS = [
 def prop_stat(root, chown_ok=True):
     """the same sentence judged on the final state: a key directory that holds a key file is 0700 and (where chown
     can succeed) root:root"""
-    d = os.path.join(root, "keys")
+    d = os.path.realpath(os.path.join(root, "keys"))      # the directory that actually holds the key files
     try:
         names = os.listdir(d)
         st = os.stat(d)
@@ -664,6 +695,34 @@ SHAPE_CASES = [
 ]
 
 
+# key material of other lengths: well-formed hex of 128 / 384 / 512 bit passes the gate, is stored, attested (also a
+# refused attestation) and used for signing; odd / malformed long ones are refused by the gate
+LENGTH_CASES = [
+    ([("poll", ("ok", True, None, 1), ("ok", 1, True), "ok"), ("client",), ("poll", ("ok", True, None, 1), ("ok", 2, True), "err"),
+      ("poll", ("ok", True, None, 1), ("ok", 2, True), "ok"), ("client",), ("status_tick",), ("restart",),
+      ("poll", ("ok", True, 2, 1), ("err",), "ok"), ("client",), ("provision", False), ("timeup",)],
+     {1: "hex128", 2: "hex32"}),
+    ([("poll", ("ok", True, None, 1), ("ok", 1, True), "err"), ("poll", ("ok", True, None, 1), ("ok", 1, True), "ok"), ("client",),
+      ("poll", ("ok", True, None, 1), ("ok", 2, True), "ok"), ("client",), ("poll", ("ok", True, None, 1), ("ok", 3, True), "ok"),
+      ("client",), ("status_tick",), ("provision", True), ("timeup",)],
+     {1: "hex96", 2: "lower128", 3: "hex2"}),
+    ([("poll", ("ok", True, None, 1), ("ok", 1, False), "ok"), ("poll", ("ok", True, 1, 1), ("ok", 2, False), "ok"), ("client",),
+      ("poll", ("ok", True, None, 1), ("ok", 3, False), "ok"), ("client",), ("status_tick",), ("provision", False), ("timeup",)],
+     {1: "odd127", 2: "odd31", 3: "bad128"}),
+]
+# key-folder shapes: (history, how the configured folder relates to the real directory, what the real directory is at start)
+_LATCH_USE = [("poll", ("ok", True, None, 1), ("ok", 1, True), "ok"), ("client",), ("timeup",), ("restart",),
+              ("poll", ("ok", True, None, 1), ("ok", 2, True), "ok"), ("client",), ("status_tick",), ("provision", False)]
+FOLDER_CASES = [
+    (_LATCH_USE, "symlink", {"uid": 0, "gid": 0, "mode": 0o755}),
+    (_LATCH_USE, "symlink", {"uid": 1000, "gid": 1000, "mode": 0o755}),
+    (_LATCH_USE, "nested", {"uid": 0, "gid": 0, "mode": 0o755}),
+    (_LATCH_USE, "nested", {"uid": 65534, "gid": 65534, "mode": 0o700}),
+    (_LATCH_USE, "relative", None),
+    (_LATCH_USE, "relative", {"uid": 0, "gid": 65534, "mode": 0o775}),
+]
+
+
 WITNESS_KEYDIR = [("poll", ("ok", True, None, 1), ("ok", 1, True), "ok"), ("rmdir",), ("timeup",),
                   ("poll", ("ok", True, None, 1), ("ok", 2, True), "ok")]
 ENV_CASES = [
@@ -716,7 +775,7 @@ def gen_history(rng, faults=True):
                 k = ("ok", latched, hexness[latched])        # re-issue of the latched key
             elif kr < 0.50:
                 kid = next_kid; next_kid += 1; hexness[kid] = True
-                shapes[kid] = "empty" if rng.random() < 0.04 else rng.choice(VALID_SHAPES[:3])
+                shapes[kid] = "empty" if rng.random() < 0.04 else rng.choice(VALID_SHAPES[:-1])
                 k = ("ok", kid, True)
             elif kr < 0.72:
                 kid = next_kid; next_kid += 1; hexness[kid] = False
@@ -801,6 +860,9 @@ def run(ctx):
     n_strace = 24 if ctx.quick else 200
     hists = [WITNESS_HEX, WITNESS_BODY] + FIXED_CASES + [h for h, _ in SHAPE_CASES] + ENV_CASES
     shapes = [None] * (2 + len(FIXED_CASES)) + [sh for _, sh in SHAPE_CASES] + [None] * len(ENV_CASES)
+    n_old_fixed = len(hists)
+    hists += [h for h, _ in LENGTH_CASES] + [h for h, _, _ in FOLDER_CASES]
+    shapes += [sh for _, sh in LENGTH_CASES] + [None] * len(FOLDER_CASES)
     n_fixed = len(hists)
     for i in range(n_random):
         h, sh = gen_history(rng, faults=(i % 3 != 0))
@@ -820,14 +882,29 @@ def run(ctx):
                    for pd, h in zip(predirs, hists)]
     predirs[4] = PREDIR_KINDS[0]
     chown_fails[4] = True
+    # key-folder shapes (a symlinked folder needs a real directory to point to; it is not combined with a removal)
+    folders = ["plain"] * len(hists)
+    for j, (_, fo, pd) in enumerate(FOLDER_CASES):
+        folders[n_old_fixed + len(LENGTH_CASES) + j] = fo
+        predirs[n_old_fixed + len(LENGTH_CASES) + j] = pd
+    for i in range(n_fixed, len(hists)):
+        r = rng.random()
+        has_rmdir = any(o[0] == "rmdir" for o in hists[i])
+        if r < 0.12 and not has_rmdir:
+            folders[i] = rng.choice(["symlink", "nested"])
+            if predirs[i] is None:
+                predirs[i] = rng.choice(PREDIR_KINDS)
+        elif r < 0.20:
+            folders[i] = "relative"
     variants = [rng.randrange(10) for _ in hists]
-    straced = set(range(n_fixed)) | set(rng.sample(range(len(hists)), min(n_strace, len(hists))))
+    straced = set(range(n_fixed)) | {i for i, f in enumerate(folders) if f != "plain"}
+    straced |= set(rng.sample(range(len(hists)), min(n_strace, len(hists))))
     straced |= {i for i, c in enumerate(chown_fails) if c}
     straced |= {i for i, h in enumerate(hists) if any(o[0] == "rmdir" for o in h)}
 
     # ---------------- implementation ----------------
     def one(i):
-        root, res = run_history(ctx, binary, hists[i], canaries[i], i, strace=(i in straced), variant=variants[i], predir=predirs[i], chown_fails=chown_fails[i])
+        root, res = run_history(ctx, binary, hists[i], canaries[i], i, strace=(i in straced), variant=variants[i], predir=predirs[i], chown_fails=chown_fails[i], folder=folders[i])
         hexness = key_ids(hists[i])
         obs, det, nfiles = scan(root, res, canaries[i], hexness)
         tr = keydir_trace(root) if i in straced else None
@@ -864,7 +941,7 @@ def run(ctx):
     for i, h in enumerate(hists):
         im, (mvec, mtr) = impl[i], model[i]
         case = {"index": i, "history": hist_json(h), "keys": {str(k): v for k, v in canaries[i].items()}, "body_variant": variants[i], "key_shapes": {str(k): v for k, v in (shapes[i] or default_shapes(h)).items()},
-                "key_dir_preexists": predirs[i], "chown_refused": chown_fails[i]}
+                "key_dir_preexists": predirs[i], "chown_refused": chown_fails[i], "key_folder_shape": folders[i]}
         if not im["ok"]:
             disagreements.append({"case": case, "model": "history runs to completion", "impl": "driver error: %s" % im["error"]})
             continue
@@ -943,6 +1020,7 @@ def run(ctx):
             "attest_failures": sum(1 for h in hists for o in h if o[0] == "poll" and o[3] == "err"),
             "histories_with_any_leak": sum(1 for im in impl if any(im["obs"][s] for s in SINKS if s not in ALLOWED)),
             "key_dir_preexisting": sum(1 for p in predirs if p),
+            "key_folder_shapes": {f: sum(1 for x in folders if x == f) for f in FOLDER_SHAPES},
             "key_dir_preexisting_kinds": {"%d:%d %o" % (k["uid"], k["gid"], k["mode"]): sum(1 for p in predirs if p == k) for k in PREDIR_KINDS}, "chown_refused": sum(1 for c in chown_fails if c), "decoy_canaries": sum(1 for c in canaries for k in c if k >= DECOY0),
         },
     })
